@@ -14,6 +14,25 @@ pub mod object;
 
 pub struct RawUnprocessedJSONArray;
 impl RawUnprocessedJSONArray {
+    // the scanner reads byte by byte: a byte of a multi-byte character is reported as an error
+    fn bytes_to_string(buffer: Vec<u8>) -> Result<String, String> {
+        let boxed_string = String::from_utf8(buffer);
+        if boxed_string.is_err() {
+            let message = boxed_string.err().unwrap().to_string();
+            return Err(message);
+        }
+        Ok(boxed_string.unwrap())
+    }
+
+    fn bytes_to_char(buffer: Vec<u8>) -> Result<char, String> {
+        let string = RawUnprocessedJSONArray::bytes_to_string(buffer)?;
+        let boxed_char = string.chars().last();
+        if boxed_char.is_none() {
+            return Err("unable to read a character from an empty buffer".to_string());
+        }
+        Ok(boxed_char.unwrap())
+    }
+
     pub fn split_into_vector_of_strings(_json_string: String) -> Result<Vec<String>, String> {
         let mut list : Vec<String> = vec![];
 
@@ -49,7 +68,7 @@ impl RawUnprocessedJSONArray {
                 let message = format!("not proper start of the json array: {}", _json_string.to_string());
                 return Err(message);
             }
-            let char = String::from_utf8(char_buffer).unwrap().chars().last().unwrap();
+            let char = RawUnprocessedJSONArray::bytes_to_char(char_buffer)?;
 
             if !char.is_whitespace() && char != '['{
                 let message = format!("input string does not start with opening square bracket: {} in {}", char, _json_string);
@@ -77,7 +96,7 @@ impl RawUnprocessedJSONArray {
             }
             boxed_read.unwrap();
             bytes_read = bytes_read + length as i128;
-            let mut char = String::from_utf8(char_buffer).unwrap().chars().last().unwrap();
+            let mut char = RawUnprocessedJSONArray::bytes_to_char(char_buffer)?;
 
             if char == ']' {
                 is_end_of_array = true;
@@ -101,7 +120,7 @@ impl RawUnprocessedJSONArray {
                         boxed_read.unwrap();
                         let length = char_buffer.len();
                         bytes_read = bytes_read + length as i128;
-                        let _char = String::from_utf8(char_buffer).unwrap();
+                        let _char = RawUnprocessedJSONArray::bytes_to_string(char_buffer)?;
                         let last_char_in_buffer = token.chars().last().unwrap().to_string();
                         not_end_of_string_property_value = _char != "\"" && last_char_in_buffer != "\\";
                         token = [token, _char.to_string()].join(SYMBOL.empty_string);
@@ -123,7 +142,7 @@ impl RawUnprocessedJSONArray {
                             }
                             boxed_read.unwrap();
                             bytes_read = bytes_read + length as i128;
-                            char = String::from_utf8(char_buffer).unwrap().chars().last().unwrap();
+                            char = RawUnprocessedJSONArray::bytes_to_char(char_buffer)?;
 
                             if char == ',' {
                                 read_till_end_of_whitespace = false
@@ -154,7 +173,7 @@ impl RawUnprocessedJSONArray {
                     }
                     boxed_read.unwrap();
                     bytes_read = bytes_read + length as i128;
-                    let remaining_bool = String::from_utf8(char_buffer).unwrap();
+                    let remaining_bool = RawUnprocessedJSONArray::bytes_to_string(char_buffer)?;
                     if remaining_bool != "ull" {
                         let message = format!("Unable to parse null: {} in {}", remaining_bool, _json_string);
                         return Err(message)
@@ -177,7 +196,7 @@ impl RawUnprocessedJSONArray {
                     }
                     boxed_read.unwrap();
                     bytes_read = bytes_read + length as i128;
-                    let remaining_bool = String::from_utf8(char_buffer).unwrap();
+                    let remaining_bool = RawUnprocessedJSONArray::bytes_to_string(char_buffer)?;
                     if remaining_bool != "rue" {
                         let message = format!("Unable to parse true: {} in {}", remaining_bool, _json_string);
                         return Err(message)
@@ -200,7 +219,7 @@ impl RawUnprocessedJSONArray {
                     }
                     boxed_read.unwrap();
                     bytes_read = bytes_read + length as i128;
-                    let remaining_bool = String::from_utf8(char_buffer).unwrap();
+                    let remaining_bool = RawUnprocessedJSONArray::bytes_to_string(char_buffer)?;
                     if remaining_bool != "alse" {
                         let message = format!("Unable to parse false: {} in {}", remaining_bool, _json_string);
                         return Err(message)
@@ -229,7 +248,7 @@ impl RawUnprocessedJSONArray {
                         }
                         boxed_read.unwrap();
                         bytes_read = bytes_read + length as i128;
-                        let char = String::from_utf8(char_buffer).unwrap().chars().last().unwrap();
+                        let char = RawUnprocessedJSONArray::bytes_to_char(char_buffer)?;
 
                         let is_open_square_bracket = char == '[';
                         if is_open_square_bracket {
@@ -272,7 +291,7 @@ impl RawUnprocessedJSONArray {
                         }
                         boxed_read.unwrap();
                         bytes_read = bytes_read + length as i128;
-                        let char = String::from_utf8(char_buffer).unwrap().chars().last().unwrap();
+                        let char = RawUnprocessedJSONArray::bytes_to_char(char_buffer)?;
 
                         let is_open_curly_brace = char == '{';
                         if is_open_curly_brace {
@@ -334,7 +353,7 @@ impl RawUnprocessedJSONArray {
                         }
                         boxed_read.unwrap();
                         bytes_read = bytes_read + length as i128;
-                        char = String::from_utf8(char_buffer).unwrap().chars().last().unwrap();
+                        char = RawUnprocessedJSONArray::bytes_to_char(char_buffer)?;
 
                         let is_numeric = char.is_numeric();
 
@@ -381,7 +400,7 @@ impl RawUnprocessedJSONArray {
                                 }
                                 boxed_read.unwrap();
                                 bytes_read = bytes_read + length as i128;
-                                char = String::from_utf8(char_buffer).unwrap().chars().last().unwrap();
+                                char = RawUnprocessedJSONArray::bytes_to_char(char_buffer)?;
 
                                 if char == ',' {
                                     read_till_end_of_whitespace = false
@@ -457,7 +476,7 @@ impl RawUnprocessedJSONArray {
             }
             boxed_read.unwrap();
             bytes_read = bytes_read + length as i128;
-            let char = String::from_utf8(char_buffer).unwrap().chars().last().unwrap();
+            let char = RawUnprocessedJSONArray::bytes_to_char(char_buffer)?;
 
             if !char.is_whitespace(){
                 let message = format!("after array there are some characters: {} in {}", char, _json_string);
